@@ -31,10 +31,9 @@ func TestC27(t *testing.T) {
 	defer r.Finish()
 	polyeth.VerifSealBypass = true
 	defer func() { polyeth.VerifSealBypass = false }()
-	r.Rule("random header trees (<=14 nodes quick, <=40 thorough; branching biased to long competing forks, difficulties by the real rule with varied timestamps/uncle flags so forks have different weights, incl. equal-weight siblings) submitted in random orders with children before parents, duplicates and batches of 1-4; distinct = (tree shape, submission order) fingerprint; monitor after every call")
+	r.Rule("random header trees (<=14 nodes quick, <=40 thorough; branching biased to long competing forks, difficulties by the real rule with varied timestamps/uncle flags so forks have different weights, incl. equal-weight siblings; per-branch tempo from 1 s to 2400 s gaps and uncle flags so that shorter-but-heavier forks occur; one tree in six is directed: a slow branch of L+1 blocks (gaps >= 900 s, difficulty falls ~4.8% per block) against a fast branch of L >= 6 blocks (gaps 1-8 s) from the same ancestor, submitted slow-first (reorganisation onto a LOWER head) or fast-first (a higher but lighter fork must not be adopted)) submitted in random orders with children before parents, duplicates and batches of 1-4; distinct = (tree shape, submission order) fingerprint; monitor after every call")
 	r.Assume("every header of a tree conforms to the Ethereum header rules (checked by the independent spec oracle of ethsynth), so a header whose parent is stored must be stored and a call fails only because some header's parent is unknown")
 	r.Assume("ties in total difficulty: any maximal head is accepted")
-	r.Assume("with rule-conforming difficulties (change <= 5% per block) a fork that is shorter than the current chain can never outweigh it inside a 40-node tree, so observed reorganisations go to equal-height or higher forks; RestructChain's shorter-fork branch is unreachable with valid headers")
 	r.Assume("canonical index entries above the head height are not part of the index (unreachable through GetHeaderByHeight)")
 	trees := r.N(400, 10000)
 	maxNodes := r.N(14, 40)
@@ -53,7 +52,15 @@ func TestC27(t *testing.T) {
 			envs[rt.net] = es.NewEnv(r.Rand(fmt.Sprintf("env/%d", ti)), rt.net)
 		}
 		envs[rt.net].Use()
-		runTree(r, rng, envs[rt.net], uint64(1000+ti), rt.net, rt.num, 3+rng.Intn(maxNodes-2), ti < 3)
+		directed := 0
+		if ti%6 == 1 {
+			directed = 1 + (ti/6)%2
+		}
+		nn := 3 + rng.Intn(maxNodes-2)
+		if directed != 0 {
+			nn = maxNodes
+		}
+		runTree(r, rng, envs[rt.net], uint64(1000+ti), rt.net, rt.num, nn, ti < 3, directed)
 		if r.Violations() > 8 {
 			break
 		}
@@ -63,9 +70,13 @@ func TestC27(t *testing.T) {
 	r.Require("reorgs", trees/4)
 	r.Require("duplicate_calls_no_change", trees/4)
 	r.Require("forks_not_adopted", trees/4)
+	r.Require("reorg_to_lower_head", trees/16)
+	r.Require("higher_but_lighter_fork_not_adopted", trees/16)
 }
 
-func runTree(r *kit.Run, rng *rand.Rand, e *es.Env, chainID uint64, net uint32, rootNum uint64, n int, sample bool) {
+// directed: 0 = random tree; 1 / 2 = slow-long branch against fast-short branch from a common
+// ancestor, submitted slow-first / fast-first.
+func runTree(r *kit.Run, rng *rand.Rand, e *es.Env, chainID uint64, net uint32, rootNum uint64, n int, sample bool, directed int) {
 	if err := e.RegisterSideChain(chainID, utils.ETH_ROUTER, "eth", 1, make([]byte, 20), nil); err != nil {
 		r.Inconclusive("register: " + err.Error())
 		return
@@ -73,7 +84,8 @@ func runTree(r *kit.Run, rng *rand.Rand, e *es.Env, chainID uint64, net uint32, 
 	forks := es.ForksFor(net)
 	// low difficulties make the +-diff/2048 adjustment coarse, high ones realistic
 	diff := big.NewInt(131072 + rng.Int63n(5000000))
-	if rng.Intn(2) == 0 {
+	if rng.Intn(2) == 0 || directed != 0 {
+		// (directed trees need the proportional adjustment to dominate the minimum-difficulty clamp and the bomb)
 		diff = big.NewInt(1000000000000 + rng.Int63n(1000000000000000))
 	}
 	root := es.NewRoot(rng, forks, rootNum, diff, uint64(8000000+rng.Intn(20000000)))
@@ -86,27 +98,72 @@ func runTree(r *kit.Run, rng *rand.Rand, e *es.Env, chainID uint64, net uint32, 
 	tree := make([]*node, 0, n)
 	tip := -1
 	shape := ""
+	tempo := map[int]int{-1: rng.Intn(3)} // per node: 0 mixed, 1 fast (1-8 s), 2 slow (>= 900 s); mostly inherited along a branch
+	var dirOrder []int
+	// directed layout: prefix of k blocks, then slow branch of L+1 blocks and fast branch of L blocks from the prefix tip
+	L, k := 6, 0
+	if directed != 0 {
+		if n > 14 {
+			L = 6 + rng.Intn((n-1)/2-6+1)
+		}
+		if room := n - (2*L + 1); room > 0 {
+			k = rng.Intn(room + 1)
+			if k > 3 {
+				k = 3
+			}
+		}
+		n = k + 2*L + 1
+	}
 	for i := 0; i < n; i++ {
 		p := tip
-		switch {
-		case i == 0:
-			p = -1
-		case rng.Intn(4) == 0: // fork from a random earlier node (or the root)
-			p = rng.Intn(i+1) - 1
-		case rng.Intn(5) == 0: // continue some other branch
-			p = rng.Intn(i)
+		o := es.ChildOpt{}
+		if directed != 0 {
+			switch {
+			case i < k: // prefix
+				p = i - 1
+			case i == k || i == k+L+1: // first block of the slow / fast branch
+				p = k - 1
+			default:
+				p = i - 1
+			}
+			if i >= k && i <= k+L { // slow branch: adjustment clamps at -99/2048 per block
+				o.Dt = uint64(900 + rng.Intn(1500))
+				o.Uncles = 1
+			} else if i > k+L { // fast branch
+				o.Dt = uint64(1 + rng.Intn(8))
+			}
+		} else {
+			switch {
+			case i == 0:
+				p = -1
+			case rng.Intn(4) == 0: // fork from a random earlier node (or the root)
+				p = rng.Intn(i+1) - 1
+			case rng.Intn(5) == 0: // continue some other branch
+				p = rng.Intn(i)
+			}
+			tp := tempo[p]
+			if p != tip || rng.Intn(5) == 0 {
+				tp = rng.Intn(3) // a new branch (or an occasional change of pace) draws its own tempo
+			}
+			tempo[i] = tp
+			switch tp {
+			case 1:
+				o.Dt = uint64(1 + rng.Intn(8))
+			case 2:
+				o.Dt = uint64(900 + rng.Intn(1500))
+			default:
+				if rng.Intn(3) == 0 {
+					o.Dt = uint64(1 + rng.Intn(8)) // fast block: difficulty goes up
+				} else if rng.Intn(3) == 0 {
+					o.Dt = uint64(20 + rng.Intn(2000)) // slow block: difficulty goes down
+				}
+			}
 		}
 		ph, ptd := root, root.Difficulty
 		if p >= 0 {
 			ph, ptd = tree[p].h, tree[p].td
 		}
-		o := es.ChildOpt{}
-		if rng.Intn(3) == 0 {
-			o.Dt = uint64(1 + rng.Intn(8)) // fast block: difficulty goes up
-		} else if rng.Intn(3) == 0 {
-			o.Dt = uint64(20 + rng.Intn(2000)) // slow block: difficulty goes down
-		}
-		if p >= 0 && rng.Intn(6) == 0 && i > 0 {
+		if directed == 0 && p >= 0 && rng.Intn(6) == 0 && i > 0 {
 			// an exact sibling in weight: same time as some existing sibling gives equal difficulty
 			for _, s := range tree {
 				if s.parent == p {
@@ -123,13 +180,39 @@ func runTree(r *kit.Run, rng *rand.Rand, e *es.Env, chainID uint64, net uint32, 
 		nd := &node{h: h, hash: h.Hash(), parent: p, td: new(big.Int).Add(ptd, h.Difficulty), json: h.JSON()}
 		tree = append(tree, nd)
 		shape += fmt.Sprintf("%d,", p)
-		if tip < 0 || rng.Intn(3) != 0 {
+		if tip < 0 || rng.Intn(3) != 0 || directed != 0 {
 			tip = i
 		}
 	}
+	if directed != 0 {
+		slowTip, fastTip := tree[k+L], tree[n-1]
+		if fastTip.td.Cmp(slowTip.td) > 0 && fastTip.h.Number < slowTip.h.Number {
+			r.Count("directed_shorter_fork_is_heavier", 1)
+		} else {
+			r.Count("directed_shorter_fork_not_heavier", 1)
+		}
+		for i := 0; i < k; i++ {
+			dirOrder = append(dirOrder, i)
+		}
+		slow, fast := []int{}, []int{}
+		for i := k; i <= k+L; i++ {
+			slow = append(slow, i)
+		}
+		for i := k + L + 1; i < n; i++ {
+			fast = append(fast, i)
+		}
+		if directed == 1 {
+			dirOrder = append(append(dirOrder, slow...), fast...)
+		} else {
+			dirOrder = append(append(dirOrder, fast...), slow...)
+		}
+		shape = fmt.Sprintf("directed%d/k%d/L%d/", directed, k, L) + shape
+	}
 	// --- submission schedule
 	order := rng.Perm(n)
-	if rng.Intn(3) != 0 { // mostly parent-first with a few inversions
+	if directed != 0 {
+		order = dirOrder
+	} else if rng.Intn(3) != 0 { // mostly parent-first with a few inversions
 		for i := range order {
 			order[i] = i
 		}
@@ -297,12 +380,18 @@ func runTree(r *kit.Run, rng *rand.Rand, e *es.Env, chainID uint64, net uint32, 
 			if obs[newHead] != nil && obs[newHead].Parent != headHash {
 				r.Count("reorgs", 1)
 				if head < headBefore {
-					r.Count("reorg_to_shorter_chain", 1)
+					r.Count("reorg_to_lower_head", 1)
 				}
 			}
 			headHash = newHead
 		} else if wantOK && !allKnown {
 			r.Count("forks_not_adopted", 1)
+			for _, ix := range batch {
+				if tmp[tree[ix].hash] && tree[ix].h.Number > head {
+					r.Count("higher_but_lighter_fork_not_adopted", 1)
+					break
+				}
+			}
 		}
 	}
 	r.Distinct(shape, ordFP)
